@@ -190,7 +190,12 @@ def main():
                 s["diag"].get("components", {}))[:300], {"scenario": s["scenario"], "diag": s["diag"]},
                 finding_key=None)
         else:
-            c.note_inconclusive("run hit the watchdog at K=%s but did not reproduce at K=1 (%s)" % (K, verdict))
+            os.makedirs(os.path.join(vlib.VERIF_ROOT, "replay", PROP), exist_ok=True)
+            sp = os.path.join(vlib.VERIF_ROOT, "replay", PROP, "stuck-seed%d-%d.json" % (c.seed, stuck.index(s)))
+            with open(sp, "w") as f:
+                json.dump({"scenario": s["scenario"], "diag": s["diag"]}, f, indent=1)
+            c.note_inconclusive("run hit the watchdog at K=%s but did not reproduce at K=1 (%s); scenario saved to %s" % (
+                K, verdict, sp))
     if len(stuck) > 3:
         c.note_inconclusive("%d further watchdog firings not re-examined" % (len(stuck) - 3))
     c.floor("terminated_runs", 100)
